@@ -315,6 +315,12 @@ class TranslatorC(Translator):
                 return out
 
             elif expr.op in ['-']:
+                if expr.size > self.NATIVE_INT_MAX_SIZE:
+                    return "bignum_mask(bignum_sub(%s, %s), %d)" % (
+                        self.from_expr(expr.args[0]),
+                        self.from_expr(expr.args[1]),
+                        expr.size
+                    )
                 return '(((%s&%s) %s (%s&%s))&%s)' % (
                     self.from_expr(expr.args[0]),
                     self._size2mask(expr.args[0].size),
